@@ -82,14 +82,14 @@ def classify(issue, case, all_issues):
 def _build_with_own_overlay(ctx):
     """The overlay json of vcheck injects the accessor files of ALL properties. When another property's accessor no longer
     compiles against the tree under test (e.g. it names an unexported identifier that the change removed), every harness
-    build fails although harness/c03 itself is fine. Retry with only the accessors c03 needs: its own and C02's
-    (harness/c03 imports harness/c02)."""
+    build fails although harness/c03 itself is fine. Retry with only the accessors c03 needs: its own, C02's and
+    C16's (harness/c03 imports harness/c02 and harness/c16)."""
     import subprocess
     import vcheck
     try:
         mod, ov = ctx._harness_mod()
         repl = json.load(open(ov))["Replace"]
-        own = {k: v for k, v in repl.items() if re.search(r"/zz_verif_c0[23][^/]*\.go$", v)}
+        own = {k: v for k, v in repl.items() if re.search(r"/zz_verif_c(02|03|16)[^/]*\.go$", v)}
         ov2 = ov[:-5] + "-c03.json"
         open(ov2, "w").write(json.dumps({"Replace": own}, indent=1, sort_keys=True))
         out_bin = os.path.join(ctx.bindir, "c03")
@@ -217,6 +217,7 @@ def run(ctx):
         ctx.broken(f"Render.wfDirs and Spec/WellFormedConf disagree on a real http.conf: {d}", replay=d)
 
     frag = _render_stream(ctx)
+    frag_tls = _render_tls_stream(ctx)
 
     ctx.finish({
         "evaluations": evaluated,
@@ -233,7 +234,7 @@ def run(ctx):
         "lexer_disagreements": len(lexdiffs),
         "crossplane_only_errors": len(xp_only),
         "directives_judged": dirs,
-        "traces_validated_against_impl": names + frag.get("equal", 0),
+        "traces_validated_against_impl": names + frag.get("equal", 0) + frag_tls.get("equal", 0),
         "name_mangling_observations": names,
         "name_mangling_disagreements": len(namediffs),
         "regex_lean_vs_go": dict(regex_stats),
@@ -243,6 +244,7 @@ def run(ctx):
         "wfDirs_issues_on_real_files": wf_issues,
         "https_tls_share_port_by_ip_family": share,
         "render_tie": frag,
+        "render_tls_tie": frag_tls,
     }, assumptions=[
         "NGINX's configuration-time behaviour is the Lean model Spec/WellFormedConf + Model/NginxLex/NginxParse (no nginx binary "
         "in the sandbox); it is cross-checked against nginx-go-crossplane's lexer on every generated file and its analyser on "
@@ -327,6 +329,87 @@ def _render_stream(ctx):
     if frag["scenarios"] and frag["in_fragment"] * 2 < frag["scenarios"]:
         ctx.broken(f"render tie nearly vacuous: only {frag['in_fragment']} of {frag['scenarios']} scenarios inside the fragment: {dict(outside)}")
     out = dict(frag)
+    out["outside_fragment_reasons"] = dict(outside)
+    return out
+
+
+def _render_tls_stream(ctx):
+    """Stage 3: translation validation of Model/RenderTls (SSL servers). Scenarios of C16's TLS fragment generator run through
+    the real pipeline; driver mode rendertls compares the parsed REAL http.conf / matches.json with renderT (genTR s …)."""
+    n = 120 if ctx.tier == "quick" else 3000
+    lines = ctx.harness(["-seed", ctx.seed, "-fragment-tls", n]) or []
+    fr = collections.Counter()
+    outside = collections.Counter()
+    if not lines:
+        ctx.broken("TLS fragment stream of harness/c03 produced nothing")
+        return {}
+    res = ctx.driver("rendertls", lines)
+    diffs = 0
+    seen = set()
+    for raw, r in zip(lines, res):
+        case = json.loads(raw)
+        fr["scenarios"] += 1
+        if case.get("panic"):
+            fr["panics"] += 1
+            continue
+        r = json.loads(r)
+
+        def rep(extra):
+            idx = int(case["id"].rsplit("-", 1)[1])
+            d = {"id": case["id"], "flat": case.get("flat"), "http": case.get("http"), "matches": case.get("matches"),
+                 "sfiles": case.get("sfiles"),
+                 "how": f"harness/cmd/c03 -seed {ctx.seed} -fragment-tls {idx + 1} -only {idx} regenerates the case with its objects; "
+                        "ngfdriver_C03 rendertls reads the line"}
+            d.update(extra)
+            return d
+        if "error" in r:
+            ctx.broken(f"rendertls mode could not decode a harness line: {r}", replay=rep({}))
+            continue
+        if not r.get("inFragment"):
+            outside[r.get("why", "")[:70]] += 1
+            continue
+        fr["in_fragment"] += 1
+        for k in ("dirs", "sslServers", "sslDefaults", "certRefs"):
+            fr[k + "_compared"] += r.get(k, 0)
+        fr["scenarios_with_ssl_servers"] += r.get("sslServers", 0) > 0
+        hyp = bool(r.get("namesSafe")) and bool(r.get("portsOK")) and bool(r.get("noDupSsl"))
+        fr["inside_theorem_hypotheses"] += hyp
+        fr["known_finding_region_dup_ssl_server"] += not r.get("noDupSsl")
+        if not r.get("forgetOK"):
+            ctx.broken("genTR_projects_to_genT is false on a generated input (forget (genTR s) != genT s)", kind="obligation", replay=rep({}))
+        if not r.get("certModelOK"):
+            ctx.broken("ssl_cert_files_defined is false on a generated input", kind="obligation", replay=rep({}))
+        if r.get("equal") and r.get("matchesEqual"):
+            fr["equal"] += 1
+        elif r.get("noDupSsl"):
+            diffs += 1
+            fr["differs"] += 1
+            if diffs <= 3:
+                what = r.get("diff") or r.get("matchesDiff")
+                ctx.broken("Model/RenderTls and the real generator disagree (parsed http.conf / matches.json != renderT (genTR s)): "
+                           + what[:900], replay=rep({"diff": r.get("diff"), "matchesDiff": r.get("matchesDiff")}))
+        else:
+            fr["order_not_determined(dup ssl server names)"] += 1
+        if r.get("wfModel") and hyp:
+            fr["wf_issue_on_model"] += 1
+            ctx.broken(f"renderT_wellformed is false on a generated input: {r['wfModel'][:3]}", kind="obligation",
+                       replay=rep({"issues": r["wfModel"]}))
+        for m in r.get("certMissing", []):
+            if "cert" not in seen:
+                seen.add("cert")
+                ctx.finding("C03:file-missing:ssl_certificate:fragment", f"ssl_certificate refers to a file that is not generated: {m}", rep({"missing": m}))
+        for i in r.get("wfReal", []):
+            if i["c"] == "duplicate-listen-server-name" and not r.get("noDupSsl"):
+                sig = "C03:duplicate-ssl-server-from-listener-404"
+            else:
+                sig = f"C03:{i['c']}:fragment"
+            if sig in seen:
+                continue
+            seen.add(sig)
+            ctx.finding(sig, f"generated configuration of a TLS fragment scenario is not loadable: {i['c']}: {i['d'][:300]}", rep({"issue": i}))
+    if fr["scenarios"] and fr["in_fragment"] * 2 < fr["scenarios"]:
+        ctx.broken(f"TLS render tie nearly vacuous: only {fr['in_fragment']} of {fr['scenarios']} scenarios inside the fragment: {dict(outside)}")
+    out = dict(fr)
     out["outside_fragment_reasons"] = dict(outside)
     return out
 
